@@ -18,6 +18,12 @@ Signatures (computed from the structure of the variant, never from messages):
                                         the pairs legacy:<c>+indent:<c> and legacy:py+indent:<enclosing block> are
                                         built systematically, the others at random)
   style=baseline,intact=<escaped-slashes|floordiv-assign|multiline-stmt>,where=<text|stmt>
+  pinned regression witnesses (PINNED_REGRESSIONS: fixed defects outside the reach of the generator; the minimal
+  pairs of the patches, compiled on every run):
+    style=trailing-comment,line=text,trailing-blanks       (F17k: a text line with trailing blanks of its own)
+    style=hash-comment,position=metadata                   (F17l: a # line inside the @metadata block)
+    style=hash-comment,position=join-block,indent          (F17m: a # line in a join block, indented less than the
+                                                            block / at column 0)
   helper-law=<name>                     (a law of Props/C17.v fails on the real helper)
   <I> = '+'-joined subset of {multiline-stmt, py}: what the variant indents besides story lines (continuation lines of
         a multi-line ~ statement, the body of an @py: block)
@@ -44,6 +50,31 @@ JOIN_UNITS = [("2sp", "  "), ("tab", "\t"), ("6sp", "      ")]
 # comment texts: plain, and ones that look like syntax (none may change what the line means)
 COMMENTS = ["note", "note", "TODO: go -> Later", "was n //= 2", "see \\// there", "^tag {x}", "= 3", "@endif",
             "keep the glue<>", "a // b"]
+
+
+# Pinned regression witnesses: (signature, what, baseline source, variant sources).  Every variant must compile to
+# exactly what the baseline compiles to.  These are the minimal pairs of proposed_fixes/F17k, F17l, F17m (shapes the
+# story generator does not build: trailing blanks on a text line, the @metadata block, # lines that are indented
+# less than the join block they stand in); coq/Props/C17.v has the same inputs as Examples of the parser model.
+PINNED_REGRESSIONS = [
+    ("style=trailing-comment,line=text,trailing-blanks",
+     "F17k: a text line that ends in blanks compiles differently once a trailing // comment is appended to it",
+     ":: S\nHello   \nBye",
+     [":: S\nHello    // c\nBye", ":: S\nHello   \t // c\nBye"]),
+    ("style=hash-comment,position=metadata",
+     "F17l: a # comment line inside the @metadata block ends the block or becomes a metadata key",
+     "@metadata\n  title: X\n  author: Y\n:: Start\nhi",
+     ["@metadata\n  title: X\n# note\n  author: Y\n:: Start\nhi",
+      "@metadata\n  title: X\n  # note: this\n  author: Y\n:: Start\nhi",
+      "@metadata\n# first\n  title: X\n  author: Y\n  # last\n:: Start\nhi"]),
+    ("style=hash-comment,position=join-block,indent",
+     "F17m: a # comment line in the block under a `-> @join` choice decides the block's base indentation or ends it",
+     ":: Start\n* [J] -> @join\n   inner\n@join\nafter",
+     [":: Start\n* [J] -> @join\n  # c\n   inner\n@join\nafter",
+      ":: Start\n* [J] -> @join\n# c\n   inner\n@join\nafter",
+      ":: Start\n* [J] -> @join\n   inner\n# c\n@join\nafter",
+      ":: Start\n* [J] -> @join\n   inner\n      # c\n@join\nafter"]),
+]
 
 
 # ------------------------------------------------------------------------------------------------
@@ -587,6 +618,30 @@ def run(tier: str, seed: int) -> int:
                      "regression of the compiler on documented syntax)", {"source": diff.invalid[0][0],
                                                                          "error": diff.invalid[0][1]})
 
+    # pinned regression witnesses (deterministic; one report per signature, with the first variant that differs)
+    pinned_notes = {}
+    for sig, what, bt, vts in PINNED_REGRESSIONS:
+        b = compile_src(bt)
+        total_variants += len(vts)
+        if b[0] != "ok":
+            chk.disagree("pinned-witness", f"the baseline of the pinned witness {sig} does not compile: {b[1:]}",
+                         {"source": bt})
+            continue
+        bad = []
+        for vt in vts:
+            v = compile_src(vt)
+            if v[0] != "ok":
+                bad.append((vt, f"rejected: {v[1]}: {v[2]}"))
+            elif v[1] != b[1]:
+                bad.append((vt, "compiles differently: " + str(first_difference(b[1], v[1]))))
+        pinned_notes[sig] = {"variants": len(vts), "failed": len(bad)}
+        if bad and "baseline_text" not in (known.get(sig, {}).get("witness_case") or {}):   # else reported above
+            vt, oc = bad[0]
+            chk.report(sig, f"{what}: {oc}  [variant source: {vt!r}]",
+                       {"kind": "pinned-regression", "outcome": oc, "baseline_text": bt, "variant_text": vt,
+                        "variants_failing": len(bad), "variants": len(vts)})
+    chk.notes["pinned_regression_witnesses"] = pinned_notes
+
     # one report per signature, with a shrunk witness; the signature reported is that of the shrunk witness
     # (a story with a colon in a header that fails for another reason shrinks to a witness without the colon)
     failing = {}
@@ -716,7 +771,7 @@ def run(tier: str, seed: int) -> int:
                                   "Props/C17.v proves the helper-level statements (suffix _partial)")
     chk.assumptions = [
         "ASCII sources only; generated stories stay inside the documented language (docs/spec.md) and compile",
-        "imports and @metadata are not generated; bardic comments are not placed inside @py bodies nor on the "
+        "imports and @metadata are not generated (one pinned @metadata witness, PINNED_REGRESSIONS); bardic comments are not placed inside @py bodies nor on the "
         "continuation lines of a multi-line ~ statement (those lines are Python)",
         "multi-line ~ statements are generated at top level and in @if/@for bodies and join blocks; the parser of join "
         "blocks takes only the first line of such a statement (the rest becomes text) - the same in every surface "
@@ -726,8 +781,8 @@ def run(tier: str, seed: int) -> int:
         "the body of a Python block that contains a non-blank line indented less than its first line is not given an "
         "indentation of its own (style indent:py): outside the hypothesis of uniform_indent_invisible_partial; its legacy "
         "form and the indentation of the enclosing @if/@for body are compared",
-        "a # comment line at column 0 is only generated in @if/@for bodies: inside a join block it ends the block "
-        "by design of indentation-delimited blocks",
+        "a # comment line at column 0 is only generated in @if/@for bodies; inside a join block (where it ended the "
+        "block before fix F17m) it is covered by a pinned witness only (PINNED_REGRESSIONS)",
         "a top-level blank line directly after a join choice is not generated (its attribution to the block depends on "
         "the neighbouring lines by design of indentation-delimited blocks)",
     ]
